@@ -63,8 +63,39 @@ def kwargs_of(call):
     return {k.arg: k.value for k in call.keywords if k.arg}
 
 
+def _always_leaves(stmts):
+    if not stmts:
+        return False
+    last = stmts[-1]
+    if isinstance(last, (ast.Return, ast.Raise, ast.Continue, ast.Break)):
+        return True
+    return isinstance(last, ast.If) and bool(last.orelse) and _always_leaves(last.body) and _always_leaves(last.orelse)
+
+
+_NEG = {ast.IsNot: ast.Is, ast.NotEq: ast.Eq, ast.NotIn: ast.In}
+
+
+def _positive_form(test, pol):
+    """(test, polarity) with the negation moved into the polarity: `not X`, `a is not b`, `a != b`, `a not in b` read as negated X"""
+    while True:
+        if isinstance(test, ast.UnaryOp) and isinstance(test.op, ast.Not):
+            test, pol = test.operand, not pol
+        elif isinstance(test, ast.Compare) and len(test.ops) == 1 and type(test.ops[0]) in _NEG:
+            t2 = ast.Compare(left=test.left, ops=[_NEG[type(test.ops[0])]()], comparators=test.comparators)
+            ast.copy_location(t2, test)
+            test, pol = t2, not pol
+        else:
+            return test, pol
+
+
 def guards(node, stop=None):
-    """Enclosing `if` tests with polarity, innermost first: [(test node, in_body: bool)]."""
+    return [_positive_form(t, pol) for t, pol in _guards_raw(node, stop)]
+
+
+def _guards_raw(node, stop=None):
+    """Conditions under which `node` runs, with polarity, innermost first: [(test node, polarity: bool)] -- the tests of the enclosing `if`s
+    (arm taken), and, for guard clauses, the tests of earlier `if`s of the same statement list whose taken arm always leaves
+    (`if c: return ...` before the statement means `not c` holds at the statement)."""
     out = []
     child, p = node, parent(node)
     while p is not None and p is not stop:
@@ -76,6 +107,18 @@ def guards(node, stop=None):
                 out.append((p.test, True))
             elif child is p.orelse:
                 out.append((p.test, False))
+        # guard clauses earlier in the same list
+        for field in ("body", "orelse", "finalbody"):
+            seq = getattr(p, field, None)
+            if isinstance(seq, list) and any(child is s_ for s_ in seq):
+                for s_ in seq:
+                    if s_ is child:
+                        break
+                    if isinstance(s_, ast.If):
+                        if _always_leaves(s_.body) and not _always_leaves(s_.orelse):
+                            out.append((s_.test, False))
+                        elif s_.orelse and _always_leaves(s_.orelse) and not _always_leaves(s_.body):
+                            out.append((s_.test, True))
         child, p = p, parent(p)
     return out
 
